@@ -1160,7 +1160,10 @@ class Network:
         await self._event_bus.emit(MessageReceivedEvent(message, connection))
 
         # Complete expected response futures
-        for expected_response in self._expected_response_futures:
+        for expected_response in list(self._expected_response_futures):
+            if expected_response.done():
+                continue
+
             if expected_response.matches(connection, message):
                 expected_response.set_result((connection, message, ))
 
